@@ -84,10 +84,18 @@ func init() {
 		"the 'iff' across arbitrary interleavings (follows from C08's lock argument plus this rule); expiry-as-modification timing; re-WATCH of an already watched key",
 		[]string{"a helper that looks the key up and bumps its version is given the key of the object being modified (the not-found edge of that lookup is not followed)"},
 		ruleA4Version, ruleA6, ruleC09Reset)
+	reg("C11",
+		"Structure of the block/wake protocol, decided on all paths of the current source: try → register → try again → wait; a waiter that was woken (and thereby unlinked from every queue) registers again before it waits again; registrations are disposed on every exit; waiters are woken before the database mutex is released, through a buffered channel; every function that can make a list non-empty releases the lock through the waking wrapper and records how many elements it inserted.",
+		"FIFO fairness, exactly-once delivery across interleavings, element order — schedule properties; no model of the scheduler is built (that would be a different technique family); RENAME/COPY/RESTORE placing a list under a waited key",
+		nil, ruleC11Protocol, ruleC11Wake)
+	reg("C12",
+		"Structure of how a blocking wait ends: the select has exactly the three arms mailbox/timer/wake; capture is paired with releaseCapture on all paths; registration is unreachable when the command runs from EXEC; CLIENT UNBLOCK's reply depends on the unblock result; closing/killing a connection reaches the unblock of its blocked command.",
+		"timing ('no earlier than t', 'promptly'); races between unblock, push and timer",
+		nil, ruleC12)
 	reg("C13",
 		"No path of these crash/stall classes is reachable from the socket: (A7) every single-result type assertion on a value taken from a command's args agrees with what the grammar-driven parser stores for every token that reaches it, and every panic in the default arm of a key switch has a case for every producible key; (R-typed-nil) no nil typed-accessor result is dereferenced; (R-payload-agree) no payload assertion can fail for a key type; (lock-balanced, A2-reentrant) no command returns holding, or self-deadlocks on, the database mutex; (R-cmdident) handler behaviour does not depend on the client's spelling of the command.",
 		"sizes/indexes/shifts computed from client integers (A8 not built), framing checks of the request parser, bounds safety of indexes computed from server-side lengths, termination of loops, memory growth, reply latency",
-		nil, ruleA7(nil, 120, true), ruleLockBalanced(nil), ruleA2Reentrant, ruleTypedNil, rulePayloadAgree, ruleCmdIdent)
+		nil, ruleA7(nil, 120, true), ruleA8, ruleLockBalanced(nil), ruleA2Reentrant, ruleTypedNil, rulePayloadAgree, ruleCmdIdent)
 	reg("C14",
 		"(R-C14-dbtable) entries of the database table are inserted only when absent and after the index range test, and are never deleted or replaced (a flush empties a database in place), so every connection that selected a database keeps seeing it; (R-C14-select) the connection's selection changes only under the validity result, and a command is bound to the database of the connection it was prepared for; (A1 modes) per-connection session state is not touched through another connection's clientState.",
 		"values returned by DBSIZE, cross-connection visibility timing",
@@ -105,4 +113,8 @@ func init() {
 		"(A4-dirty) every mutation site of database state marks the database dirty on every path inside its critical section; (R-C19-all-dbs) the saver ranges over the whole database table; (R-C19-records) writer and loader agree on the record stream: no stored entry is skipped, every header/key-object field is written and read back, both branch on every key type; (R-C19-atomic-replace) the snapshot is written to a temporary file, closed, then renamed; (R-C14-dbtable) a flushed database keeps its table entry, so its emptiness is saved; (R-payload-agree/R-ctor-agree) writer and loader use the canonical payload types and build complete lists.",
 		"gob round-trip equality of values; on-disk states at crash points beyond the create/rename structure (needs execution or a file-system model)",
 		nil, ruleA4Dirty, ruleC19AllDbs, ruleC19Records, ruleC19Atomic, ruleC14DbTable, rulePayloadAgree, ruleCtorAgree)
+	reg("C20",
+		"Structure of start-up and shutdown: RequestTermination reaches a close request for the registered connections and WaitForTermination waits for their goroutines; no process-terminating call is reachable from the API; package-level state written at run time is instance-agnostic; the port retry loop depends on an error its callee can return.",
+		"timing of Close, port release by the OS",
+		nil, ruleC20Close, ruleC20NoExit, ruleC20InstanceState, ruleC20Retry)
 }
